@@ -259,7 +259,9 @@ def grammar_text(g):
 
 
 def oracle_json(d):
-    o = {k: v for k, v in d.items() if k not in ("path", "rust", "ret")}
+    o = {k: v for k, v in d.items() if k not in ("path", "rust")}
+    if "nullable" in o:                       # an extern function: its result type (String by default)
+        o["ret"] = o.get("ret") or "String"
     for k in ("c", "lo", "hi"):
         if k in o and isinstance(o[k], str):
             o[k] = ord(o[k])
